@@ -37,6 +37,10 @@ CHECKS = {
    text='For every family member the real to_lp_format() text is parsed by an independent CPLEX-LP reader and z3 decides, for ALL points, that the two feasible sets are equal (xor unsat) and the two objective functions are equal; sense and Binary/General markings are compared; generated row names unique and user names kept are evaluated.',
    note='Decimal literals are read into doubles as any LP reader does. Dialect choices of the reader are listed in smt/lpcheck.py.',
    ref='DESIGN §3 C17'),
+ 'C20': dict(cat=TV, tech='exact parametric sensitivity decided by z3 (Optimize + a quantified query over a symbolic right-hand-side perturbation) compared with the dual values the real Clarabel entry point reports',
+   text='For every continuous family member with named rows whose optimum z3 proves unique, and every named row, z3 decides for a SYMBOLIC delta in [-d0,d0] that the optimum of the perturbed model is opt + p*delta (lower bound for all points, attainment by an exists/forall query); the reported shadow price must equal the exact slope p in the user sense, for min and max and <=, >=, = rows; inactive rows 0, unnamed rows none.',
+   note='Degenerate / non-unique optima are filtered by the solver and counted. Tolerance 1e-4 relative (interior-point duals).',
+   ref='DESIGN §3 C20'),
 }
 NA = {
  'C04': 'no value quantifier: every clause evaluates one returned point; the solver bridges (microlp, Clarabel, IndexMap) cannot be executed symbolically (DESIGN §3 C04); its premises are still evaluated inside C03/C05/C15',
